@@ -524,7 +524,7 @@ fn check_c13(tier: Tier, seed: u64) -> i32 {
             opts.seed = Some(seed);
         }
         for (k, n) in [1usize, 2, 3, 8, 16, 3, 16].iter().enumerate() {
-            let case = cli::Case::Batch { opts: opts.clone(), samples: 24, faults: vec![], stale: false, dir_preexists: false, dir_is_file: false, rayon_threads: *n, via_action: false, style: 0 };
+            let case = cli::Case::Batch { opts: opts.clone(), samples: 24, faults: vec![], stale: false, dir_preexists: false, dir_is_file: false, rayon_threads: *n, via_action: false, style: 0, fsize: None };
             let vs = cli::run_case(&case, &format!("rayon{}", k), &mut stats);
             stats.evaluations += 1;
             for v in vs {
